@@ -626,7 +626,30 @@ func init() {
 				if class == "invspec" && pjOnlyFirstSegmentForbidden(arg) {
 					e.stat("r0-invspec-only-first-segment-forbidden")
 				}
-				e.emit(op(0), exp)
+				// end-to-end witness (Node itself as the oracle, c11-resolve replay) for requests Node's own condition set covers
+				witness := func() map[string]interface{} {
+					if pl != "n" || len(custom) > 0 || kindWire > 1 {
+						return nil
+					}
+					rel := map[string]string{}
+					for f, c := range files {
+						rel[strings.TrimPrefix(f, "/proj/")] = c
+					}
+					// the file the map lookup points to is made to exist, so that "the map lets it through" is observable
+					if class == "notfound" && pjNicePath(arg) {
+						rel[strings.TrimPrefix(path.Join(pkgDir, arg), "/proj/")] = "module.exports = 1;\n"
+					}
+					importer := strings.TrimPrefix(sourceDir, "/proj/") + "/index.js"
+					if _, ok := files[sourceDir+"/u.js"]; ok {
+						importer = strings.TrimPrefix(sourceDir, "/proj/") + "/u.js"
+					}
+					return map[string]interface{}{"files": rel, "importer": importer, "spec": spec, "kind": []string{"import", "require"}[kindWire]}
+				}
+				if w := witness(); w != nil {
+					e.emitW(op(0), exp, "c11-resolve", w)
+				} else {
+					e.emit(op(0), exp)
+				}
 				if class == "notfound" && pjNicePath(arg) && r.Bool() && !e.full() {
 					probe := 1 + r.Intn(3)
 					file := path.Join(pkgDir, arg)
@@ -643,7 +666,11 @@ func init() {
 						return pjFormat(c, a)
 					})
 					e.stat(fmt.Sprintf("r%d-%s", probe, class2))
-					e.emit(op(probe), exp2)
+					if w := witness(); w != nil {
+						e.emitW(op(probe), exp2, "c11-resolve", w)
+					} else {
+						e.emit(op(probe), exp2)
+					}
 				}
 			}
 		}
